@@ -138,6 +138,13 @@ def gen_json(tier, rng):
 def run(tier, rng, C):
     cases = gen(tier, rng) + gen_json(tier, rng)
     v, stats = C.differential("C14", cases, nontrivial=lambda l, o: not o.startswith("Extension x ") and o != "err")
+    # the same library calls through the crate's own HTTP clients (reqwest, reqwest blocking, curl, ureq) against a scripted
+    # loopback server: the outcome must be the one an in-memory client given the same reply produces (gen/same.py)
+    from gen import same as SAME
+    bad_same, n_same = SAME.run("C14", SAME.cases(["code", "refresh", "introspect", "devauth", "revoke"], rng, statuses=(400, 401, 403, 500, 503), success_docs=1) + [c for c in SAME.poll_cases(rng) if " 200 " not in c[0]], C)
+    v += bad_same
+    stats["through_bundled_adapters"] = n_same
+    stats["evaluations"] = stats.get("evaluations", 0) + n_same
     stats["rule"] = ("3 families x (11 defined codes x all single-letter case flips, prefixes/suffixes, look-alikes) "
                      "+ exotic + random edits of defined codes; description/URI from {absent, empty, ASCII, Unicode, look-alikes of the rendering}; "
                      "error documents of the three families decoded from JSON text (member order, whitespace, escaping, unknown members, null/absent description and URI, positional array form, corruptions, malformed text) with a serialise/read-back round trip, "
